@@ -65,18 +65,30 @@ func (m model) clone() model {
 	return c
 }
 
+// sorted returns the rules shortest prefix first (ties cannot occur between matching rules:
+// two different prefixes of one path differ in length).
+func (m model) sorted() []rule {
+	rs := make([]rule, 0, len(m))
+	for _, r := range m {
+		rs = append(rs, r)
+	}
+	sort.Slice(rs, func(i, j int) bool {
+		if len(rs[i].Prefix) != len(rs[j].Prefix) {
+			return len(rs[i].Prefix) < len(rs[j].Prefix)
+		}
+		return rs[i].Prefix < rs[j].Prefix
+	})
+	return rs
+}
+
 // resolve is the reference resolver: all rules whose prefix is a prefix of the path,
 // shortest first, a longer rule overriding each field it sets; booleans are set by "true".
-func (m model) resolve(path string) (settings, int) {
-	var match []rule
-	for _, r := range m {
-		if strings.HasPrefix(path, r.Prefix) {
-			match = append(match, r)
+func resolve(sorted []rule, path string) (s settings, nmatch int) {
+	for _, r := range sorted {
+		if !strings.HasPrefix(path, r.Prefix) {
+			continue
 		}
-	}
-	sort.Slice(match, func(i, j int) bool { return len(match[i].Prefix) < len(match[j].Prefix) })
-	var s settings
-	for _, r := range match {
+		nmatch++
 		if r.Collection != "" {
 			s.Collection = r.Collection
 		}
@@ -99,7 +111,7 @@ func (m model) resolve(path string) (settings, int) {
 			s.ReadOnly = true
 		}
 	}
-	return s, len(match)
+	return s, nmatch
 }
 
 var allPaths []string
@@ -120,12 +132,16 @@ func genPaths(maxLen int) {
 }
 
 type world struct {
-	r  *lib.Run
-	fc *filer.FilerConf
-	m  model
+	r      *lib.Run
+	family string   // "random" | "stem8"
+	paths  []string // paths resolved after every step
+	fc    *filer.FilerConf
+	m     model
+	taint bool
 }
 
 func (w *world) rebuild() {
+	w.taint = false
 	w.fc = filer.NewFilerConf()
 	keys := make([]string, 0, len(w.m))
 	for k := range w.m {
@@ -146,34 +162,60 @@ func remainingClass(n int) string {
 	}
 }
 
-// checkAll compares the resolution of every path with the reference. before is the model
-// before the op (used only to classify a discrepancy after a delete). Returns false on an unlisted violation.
+func fromPbRule(p *filer_pb.FilerConf_PathConf) rule {
+	return rule{p.LocationPrefix, p.Collection, p.Replication, p.Ttl, p.DiskType, p.Fsync, p.VolumeGrowthCount, p.ReadOnly}
+}
+
+// checkAll compares (1) the configured rule list (ToProto, what fs.configure writes back to
+// filer.conf) with the model and (2) the resolution of every path with the reference resolver.
+// before is the model before the op. Returns false on an unlisted violation.
 func (w *world) checkAll(hist []op, after string, before model) bool {
 	r := w.r
-	for _, p := range allPaths {
+	cur := w.m.sorted()
+	var evals, multi int64
+	defer func() {
+		r.Eval(int(evals))
+		r.Count("paths_with_2plus_matching_rules", multi)
+	}()
+	// aliasing_prone_delete: this op is, or this FilerConf object went earlier through, a
+	// DeleteLocationConf on a conf with >= 2 rules (see C23-delete-rule-corrupts-survivors)
+	prone := w.taint || (after == "delete" && len(before) >= 2)
+	sig := lib.Sig{"family": w.family, "after": after, "aliasing_prone_delete": fmt.Sprint(prone)}
+	fail := func(detail map[string]interface{}) bool {
+		detail["ops"], detail["family"] = hist, w.family
+		unlisted := r.Violation(sig, detail)
+		// re-sync: continue on a fresh FilerConf that holds exactly the model's rules
+		w.rebuild()
+		return !unlisted
+	}
+	got := make(model)
+	locs := w.fc.ToProto().Locations
+	for _, l := range locs {
+		got[l.LocationPrefix] = fromPbRule(l)
+	}
+	evals++
+	same := len(locs) == len(w.m) && len(got) == len(w.m)
+	for k, v := range w.m {
+		if g, ok := got[k]; !ok || g != v {
+			same = false
+		}
+	}
+	if !same {
+		sig["op"], sig["class"] = "rules", "rule-list-differs"
+		return fail(map[string]interface{}{"got_rules": locs, "want_rules": cur, "msg": "configured rule list (ToProto) differs from the rules added and not deleted"})
+	}
+	for _, p := range w.paths {
 		got := fromPb(w.fc.MatchStorageRule(p))
-		want, nmatch := w.m.resolve(p)
-		r.Eval(1)
+		want, nmatch := resolve(cur, p)
+		evals++
 		if nmatch >= 2 {
-			r.Count("paths_with_2plus_matching_rules", 1)
+			multi++
 		}
 		if got == want {
 			continue
 		}
-		class := "settings-differ"
-		if after == "delete" {
-			if wb, _ := before.resolve(p); got == wb {
-				class = "deleted-rule-still-applies"
-			} else {
-				class = "surviving-rule-misapplied"
-			}
-		}
-		sig := lib.Sig{"op": "match", "after": after, "class": class, "remaining_rules": remainingClass(len(w.m))}
-		unlisted := r.Violation(sig, map[string]interface{}{"ops": hist, "path": p, "got": got, "want": want,
-			"msg": "MatchStorageRule differs from the reference resolver"})
-		// re-sync: continue on a fresh FilerConf that holds exactly the model's rules
-		w.rebuild()
-		return !unlisted
+		sig["op"], sig["class"] = "match", "settings-differ"
+		return fail(map[string]interface{}{"path": p, "got": got, "want": want, "msg": "MatchStorageRule differs from the reference resolver"})
 	}
 	return true
 }
@@ -199,6 +241,9 @@ func (w *world) apply(o op, hist []op) bool {
 			w.r.Count("deletes_of_absent", 1)
 		}
 		delete(w.m, o.Prefix)
+		if len(before) >= 2 {
+			w.taint = true
+		}
 	case "roundtrip":
 		var buf bytes.Buffer
 		if err := w.fc.ToText(&buf); err != nil {
@@ -213,13 +258,18 @@ func (w *world) apply(o op, hist []op) bool {
 		w.fc = nfc
 		w.r.Count("roundtrips", 1)
 	}
-	return w.checkAll(hist, o.Kind, before)
+	ok := w.checkAll(hist, o.Kind, before)
+	if ok && o.Kind == "roundtrip" {
+		w.taint = false // the conf was rebuilt from text by AddLocationConf and verified equal to the model
+	}
+	return ok
 }
 
 func (w *world) run(ops []op) {
-	w.r.Case(map[string]interface{}{"ops": ops})
+	w.r.Case(map[string]interface{}{"ops": ops, "family": w.family})
 	w.fc = filer.NewFilerConf()
 	w.m = make(model)
+	w.taint = false
 	for i, o := range ops {
 		if !w.apply(o, ops[:i+1]) {
 			return
@@ -287,9 +337,6 @@ func genCase(rng *rand.Rand) []op {
 		case len(prefixes) > 0 && rng.Intn(3) == 0: // identical up to the last character
 			base := prefixes[rng.Intn(len(prefixes))]
 			p = base[:len(base)-1] + string("/ab"[rng.Intn(3)])
-			if p == "" {
-				p = "/"
-			}
 		default:
 			p = randPrefix(rng)
 		}
@@ -309,6 +356,70 @@ func genCase(rng *rand.Rand) []op {
 			}
 			ops = append(ops, op{Kind: "delete", Prefix: p})
 		case x < 8:
+			ops = append(ops, op{Kind: "add", Rule: randRule(rng, prefixes[rng.Intn(len(prefixes))])})
+		default:
+			ops = append(ops, op{Kind: "roundtrip"})
+		}
+	}
+	return ops
+}
+
+// The "stem8" family: every rule prefix is "/", "/aaa", the 8-byte stem "/aaaaaaa", or the stem
+// followed by one of at most three chains (each chain starts with a different character and every
+// member extends the previous one). Such a trie branches only directly below the stem, where the
+// key accumulated by ptrie's Walk fills its backing array exactly, so DeleteLocationConf's
+// key-aliasing defect (C23-delete-rule-corrupts-survivors) cannot manifest and the "removing a
+// rule restores the settings computed without it" half of the statement is observed on its own.
+const stem = "/aaaaaaa"
+
+func stemPaths() []string {
+	ps := []string{"/", "/a", "/aaa", "/aaab", "/aaaaaa", "/b"}
+	var rec func(p string, depth int)
+	rec = func(p string, depth int) {
+		ps = append(ps, p)
+		if depth == 0 {
+			return
+		}
+		for _, c := range "/ab" {
+			rec(p+string(c), depth-1)
+		}
+	}
+	rec(stem, 4)
+	return ps
+}
+
+func genStemCase(rng *rand.Rand) []op {
+	var prefixes []string
+	for _, c := range "/ab" {
+		if rng.Intn(4) == 0 {
+			continue
+		}
+		p := stem + string(c)
+		n := 1 + rng.Intn(3)
+		for i := 0; i < n; i++ {
+			prefixes = append(prefixes, p)
+			p += string("/ab"[rng.Intn(3)])
+		}
+	}
+	for _, p := range []string{stem, "/", "/aaa"} {
+		if rng.Intn(2) == 0 {
+			prefixes = append(prefixes, p)
+		}
+	}
+	if len(prefixes) == 0 {
+		prefixes = []string{stem, stem + "a"}
+	}
+	rng.Shuffle(len(prefixes), func(i, j int) { prefixes[i], prefixes[j] = prefixes[j], prefixes[i] })
+	var ops []op
+	for _, p := range prefixes {
+		ops = append(ops, op{Kind: "add", Rule: randRule(rng, p)})
+	}
+	extra := 2 + rng.Intn(5)
+	for i := 0; i < extra; i++ {
+		switch x := rng.Intn(10); {
+		case x < 6:
+			ops = append(ops, op{Kind: "delete", Prefix: prefixes[rng.Intn(len(prefixes))]})
+		case x < 9:
 			ops = append(ops, op{Kind: "add", Rule: randRule(rng, prefixes[rng.Intn(len(prefixes))])})
 		default:
 			ops = append(ops, op{Kind: "roundtrip"})
@@ -361,7 +472,7 @@ func emptyPrefixCases(r *lib.Run) {
 
 func main() {
 	r := lib.Start("C23", "exploration")
-	r.SetRule("sequences of add(rule)/delete(prefix)/ToText+LoadFromBytes round trip on a real filer.FilerConf; rule sets of 1..6 prefixes over alphabet {/,a,b} up to length 5 (random, nested extensions, identical-up-to-last-char siblings, 1 in 8 unrooted), each rule setting a random subset of the 7 fields; after every step every rooted path over {/,a,b} up to the bound is resolved and compared with a reference resolver. distinct = distinct op sequence (JSON); non-trivial = at least one path of the case is matched by >= 2 rules")
+	r.SetRule("sequences of add(rule)/delete(prefix)/ToText+LoadFromBytes round trip on a real filer.FilerConf; rule sets of 1..6 prefixes over alphabet {/,a,b} up to length 5 (random, nested extensions, identical-up-to-last-char siblings, 1 in 8 unrooted), each rule setting a random subset of the 7 fields (family random), plus family stem8: prefixes /, /aaa, an 8-byte stem and up to three nested chains below the stem (a trie shape on which the known DeleteLocationConf key-aliasing defect cannot manifest, so deletes are observed on their own); after every step every rooted path over {/,a,b} up to the bound is resolved and compared with a reference resolver. distinct = distinct op sequence (JSON); non-trivial = at least one path of the case is matched by >= 2 rules")
 	r.Assume("a boolean field (fsync, read_only) is 'set' by a rule only when true, growth count only when > 0 (the statement's 'each field it sets'; proto3 has no presence)")
 	r.Assume("LocationPrefix of the returned PathConf is not part of the effective settings and is not compared")
 
@@ -369,13 +480,18 @@ func main() {
 	genPaths(maxLen)
 	r.Note("paths_checked_per_step", len(allPaths))
 	r.Note("max_path_len", maxLen)
-	w := &world{r: r}
+	w := &world{r: r, family: "random", paths: allPaths}
+	ws := &world{r: r, family: "stem8", paths: stemPaths()}
 
 	if r.Replay != "" {
 		var d struct {
-			Ops []op `json:"ops"`
+			Ops    []op   `json:"ops"`
+			Family string `json:"family"`
 		}
 		r.Must(r.LoadReplay(&d), "load replay")
+		if d.Family == "stem8" {
+			w = ws
+		}
 		w.run(d.Ops)
 		r.Nontrivial("replay")
 		r.Nontrivial("replay2")
@@ -406,7 +522,7 @@ func main() {
 		}
 	}
 
-	n := r.Pick(2000, 50000)
+	n := r.Pick(1200, 12000)
 	rng := r.SubRng("c23-cases")
 	for i := 0; i < n; i++ {
 		ops := genCase(rng)
@@ -423,8 +539,29 @@ func main() {
 		}
 	}
 	r.Note("random_cases", n)
-	if r.Counter("deletes_of_existing") == 0 || r.Counter("roundtrips") == 0 || r.Counter("adds") == 0 {
+
+	ns := r.Pick(600, 6000)
+	srng := r.SubRng("c23-stem8")
+	for i := 0; i < ns; i++ {
+		ops := genStemCase(srng)
+		before := r.Counter("paths_with_2plus_matching_rules")
+		d0 := r.Counter("deletes_of_existing")
+		ws.run(ops)
+		r.Count("stem8_deletes_of_existing", r.Counter("deletes_of_existing")-d0)
+		if r.Counter("paths_with_2plus_matching_rules") > before {
+			r.Nontrivial("stem8/" + caseKey(ops))
+		}
+		if i == 0 {
+			r.Sample(map[string]interface{}{"family": "stem8", "ops": ops})
+		}
+		if r.Violations() > 20 {
+			break
+		}
+	}
+	r.Note("stem8_cases", ns)
+	r.Note("stem8_paths_checked_per_step", len(ws.paths))
+	if r.Counter("stem8_deletes_of_existing") == 0 || r.Counter("deletes_of_existing") == 0 || r.Counter("roundtrips") == 0 || r.Counter("adds") == 0 {
 		r.Inconclusive("no delete/roundtrip/add executed")
 	}
-	r.Finish(r.Pick(500, 10000))
+	r.Finish(r.Pick(400, 4000))
 }
